@@ -171,12 +171,21 @@ def _reduce(n, nh, gives_up=False):
         b0 = list(b.data)
         out = h.call(e.fn("reduce_polytope"), args)
         A = e.poly(a.rows, b0)
-        calls = e.lp.calls
+        # two kinds of LP: the redundancy tests (objective = minus one of the LP's rows), and - since an "infeasible" answer
+        # is confirmed by the emptiness test before the constraints are declared unsatisfiable - feasibility problems (zero
+        # objective) over the system of the test they confirm
+        all_calls = e.lp.calls
+        confirms = [c_ for c_ in all_calls if _zero_objective(c_)]
+        calls = [c_ for c_ in all_calls if not _zero_objective(c_)]
         p = e.space.new_point("p")
-        base_hints = [c_.inst(p) for c_ in calls]
+        base_hints = [c_.inst(p) for c_ in all_calls]
         tested_ok = all(_tested_index(c_) is not None for c_ in calls)
         h.check("C07.reduce.each_test_maximises_one_of_its_rows", tested_ok, "an LP objective is not the negation of one of the LP's rows")
         if not tested_ok:
+            return
+        conf_ok = all(any(t.status == 2 and not t.gave_up and _confirms(t, c_) for t in calls) for c_ in confirms)
+        h.check("C07.reduce.a_feasibility_problem_is_the_system_of_a_test_answered_infeasible", conf_ok, "a feasibility LP over another system than that of a test answered 'infeasible'")
+        if not conf_ok:
             return
         unb = [c_.inst_unbounded(-to_real(c_.b[_tested_index(c_)]))[1] for c_ in calls if c_.status == 3 and not c_.gave_up]
         for fact in unb:
@@ -244,7 +253,8 @@ def _reduce(n, nh, gives_up=False):
                 # (a single remaining row with no context has nothing that could imply it: keeping it untested is the code's own
                 # up-front shortcut, and stays acceptable if it is taken later in the loop)
                 alone = len(idx) == 1 and nh is None
-                h.check("C07.reduce.kept_row_was_tested_%d" % k, alone or (c_ is not None and (c_.status == 0 or c_.gave_up)), "row %d kept without a bounded test" % jj)
+                # (outside A4 a test answered "infeasible" may fail to be confirmed: the row stays and the loop goes on)
+                h.check("C07.reduce.kept_row_was_tested_%d" % k, alone or (c_ is not None and (c_.status == 0 or c_.gave_up or (gives_up and c_.status == 2))), "row %d kept without a bounded test" % jj)
                 if c_ is not None and c_.status == 0 and not c_.gave_up:
                     w = c_.witness
                     others = z3.And(*[e.space.ev(ra.rows[q], w) <= to_real(rb.data[q]) for q in range(len(idx)) if q != k]) if len(idx) > 1 else z3.BoolVal(True)
@@ -257,6 +267,24 @@ def _reduce(n, nh, gives_up=False):
         h.frame_ok(out, "C13.frame")
 
     return c
+
+
+def _zero_objective(call):
+    return all(z3.is_true(z3.simplify(to_real(k) == 0)) for k, _ in call.c.terms)
+
+
+def _confirms(test, conf):
+    """the feasibility problem `conf` is over the system of the redundancy test `test`, the tested row relaxed by one as in
+    the test or with its own bound (either way a subset of what the test called infeasible is asked about)"""
+    if len(test.rows) != len(conf.rows) or not all(r1.same_functional(r2) for r1, r2 in zip(test.rows, conf.rows)):
+        return False
+    ti = _tested_index(test)
+    for i, (x, y) in enumerate(zip(test.b, conf.b)):
+        same = z3.is_true(z3.simplify(to_real(x) == to_real(y)))
+        restored = i == ti and z3.is_true(z3.simplify(to_real(x) - 1 == to_real(y)))
+        if not (same or restored):
+            return False
+    return True
 
 
 def _tested_index(call):
